@@ -194,15 +194,31 @@ def run_model(lines, chunk=None):
     """Feed case lines to the extracted model; one output line per input line."""
     if not lines:
         return []
-    p = subprocess.run([DRIVER], input='\n'.join(lines) + '\n', capture_output=True,
-                       text=True, timeout=3600)
-    if p.returncode != 0:
-        raise RuntimeError('model driver failed: rc=%s %s' % (p.returncode, p.stderr[:500]))
-    out = p.stdout.split('\n')
-    if out and out[-1] == '':
-        out.pop()
-    if len(out) != len(lines):
-        raise RuntimeError('model driver returned %d lines for %d cases' % (len(out), len(lines)))
+    # the driver is a pure line filter: a long batch is cut into contiguous parts answered by several driver processes at once
+    jobs = max(1, min(int(os.environ.get('VERIF_MODEL_JOBS', '8')), len(lines) // 200))
+    size = -(-len(lines) // jobs)
+    parts = [lines[i:i + size] for i in range(0, len(lines), size)]
+    procs = [subprocess.Popen([DRIVER], stdin=subprocess.PIPE, stdout=subprocess.PIPE, stderr=subprocess.PIPE, text=True) for _ in parts]
+    import threading
+    res = [None] * len(parts)
+
+    def feed(i):
+        res[i] = procs[i].communicate('\n'.join(parts[i]) + '\n', timeout=3600)
+    ths = [threading.Thread(target=feed, args=(i,)) for i in range(len(parts))]
+    for t in ths:
+        t.start()
+    for t in ths:
+        t.join()
+    out = []
+    for pr, part, r in zip(procs, parts, res):
+        if r is None or pr.returncode != 0:
+            raise RuntimeError('model driver failed: rc=%s %s' % (pr.returncode, (r[1] if r else '')[:500]))
+        o = r[0].split('\n')
+        if o and o[-1] == '':
+            o.pop()
+        if len(o) != len(part):
+            raise RuntimeError('model driver returned %d lines for %d cases' % (len(o), len(part)))
+        out.extend(o)
     _sample(lines, out)
     return out
 
